@@ -77,8 +77,10 @@ def dec (cs : Charset) : List Nat → Option (List Nat)
       some ((y1 * 4 + y2 / 16) :: (y2 % 16 * 16 + y3 / 4) :: (y3 % 4 * 64 + y4) :: r)
     | _, _, _, _, _ => none
 
-/-- `value[0..pos]` with `pos` = one past the last byte that is not `=`. -/
-def stripPad (v : List Nat) : List Nat := (v.reverse.dropWhile (· == padByte)).reverse
+/-- `value[0..pos]` with `pos` = one past the last byte that is not `=`; when *every* byte is `=`
+    (`position` finds nothing) the code keeps the whole value (`map_or(value.len(), ..)`). -/
+def stripPad (v : List Nat) : List Nat :=
+  if v.all (· == padByte) then v else (v.reverse.dropWhile (· == padByte)).reverse
 
 /-- `encode_base64(value, padding, charset)`; `none` = "unknown charset" error. -/
 def encode (v : List Nat) (padding : Bool) (charset : List Nat) : Option (List Nat) :=
